@@ -253,6 +253,30 @@ PENDING = 'static check under construction in this session (see DESIGN.md sectio
 ALL = [f'C{i:02d}' for i in range(1, 21)]
 
 
+# obligations added after the fourth seeding round and the third mutation run (DESIGN.md section 3.1)
+ADDENDA = {
+    'C02': ' Also: nothing shared between code objects (module-level container, mutable default) is written by a member of the code classes, except a memo whose key determines the value.',
+    'C03': ' Also: dense operands of every pair of integer dtypes (uint64 with a signed type is promoted to float64).',
+    'C04': ' Also: no store through a memoised value in panqec.codes.',
+    'C05': ' Also: a sector left as a constant zero vector is an unfilled half; no store through memoised channel data in error models and decoders.',
+    'C06': ' Also: the ldpc decoders are configured without a random schedule (constructor keywords and attribute stores modelled; unknown options undecided).',
+    'C07': ' Also: the symbolic channel is evaluated for the generic direction and the three families with two equal rates; weights on faces and vertices of the simplex (a zero marginal has a heavy finite or infinite weight, never nan). Which generator supplies the uniform variate is C11, not this property.',
+    'C08': ' Also: deform again with the same name (other keyword value, keyword dropped, same request) gives the result of the last request; direction families as in C07.',
+    'C09': ' Also: the distribution the weights are computed from is the deformed channel (shared with C08); decoders of this property keep no state between decode calls.',
+    'C10': ' Also: every limit or wrap of a coordinate uses the extent of the same axis; sweep_move handles every combination of excited faces and every value its tie-break can draw (no lookup error).',
+    'C11': ' Also: every call, reachable from _run, of a function with an optional generator parameter passes that parameter.',
+    'C13': ' Also: specifications with the same values in other roles (permuted sizes, one number under two names); mutable default arguments modified in place are shared state.',
+    'C14': ' Also: with --delete-existing no node deletes the result file of a task of the same run (nodes starting one after the other on a shared abstract file system); a task starting from nothing saves exactly its share, a share of one trial included.',
+    'C15': ' Also: read_entry keeps records whatever their trials recorded; n_fail written as a per-row function is decided on independent mixes of trial kinds; every per-group frame put side by side is indexed by the group key.',
+    'C16': ' Also: the table the fit and bootstrap read (n_fail, p_est, each row with the code of its own group) as in C15.',
+    'C18': ' Also: error_probability as resolved on the concrete noise class equals the product / log-sum of the per-qubit channel of the same object for directions with and without equal rates; the proposal vector has length 2n.',
+    'C19': ' Also: sizes that are permutations of each other stay different sizes; a definite raise on a concrete request is reported.',
+    'C20': ' Also: code-data requests at both ends of the lattice-size menu of main.js (read as data) with coprime dimensions.',
+}
+for _k, _v in ADDENDA.items():
+    CLAIMS[_k]['text'] = CLAIMS[_k]['text'] + _v
+
+
 def main():
     checks = []
     for pid in ALL:
